@@ -16,7 +16,7 @@
 //!         checked with plain integer comparisons on public accessors
 //!         (`c05/chk.rs`);
 //!   (iii) per entry a digest (FNV-1a 64) of the ordered outcome stream
-//!         (`E` | `P <panic sig>` | `O <rendering of the Ok value>`) is written to
+//!         (`E` | `P` | `O <rendering of the Ok value>`) is written to
 //!         `/verif/.build/out/C05-digests-<flavour>.json`; the two flavours
 //!         must produce identical digests. `--compare FILE` checks this against
 //!         the other flavour's file and `--bisect-with OTHER_BINARY` names the
@@ -31,7 +31,6 @@
 use rayon::prelude::*;
 use serde_json::json;
 use std::collections::{BTreeMap, BTreeSet};
-use std::fmt::Write as _;
 use vf::{guard, panic_sig, Report};
 
 #[path = "c05/chk.rs"]
@@ -105,12 +104,41 @@ fn line(e: &Entry, i: usize, buf: &mut String) -> Kind {
             buf.clear();
             buf.push('E');
         }
-        Kind::Panic(p) => {
+        Kind::Panic(_) => {
+            // the discriminant only: the panic *message* differs between the
+            // flavours (a ranged-integer assertion vs. the arithmetic fault it
+            // guards) without the behaviour being any different
             buf.clear();
-            let _ = write!(buf, "P {}", panic_sig(p));
+            buf.push('P');
         }
     }
     k
+}
+
+/// `panic_sig` with the toolchain's source prefix (`/rustc/<commit>/`) removed.
+fn stable_panic_sig(p: &str) -> String {
+    let s = panic_sig(p);
+    match s.find("/rustc/") {
+        Some(i) => {
+            let rest = &s[i + 7..];
+            match rest.find('/') {
+                Some(j) => format!("{}rustc:{}", &s[..i], &rest[j + 1..]),
+                None => s,
+            }
+        }
+        None => s,
+    }
+}
+
+/// Input class appended to a signature, derived from the case string: a zero
+/// rounding increment is a different failure class from anything that goes
+/// wrong with a non-zero one.
+fn input_class(case: &str) -> &'static str {
+    if case.contains("/inc=0/") {
+        ":increment=0"
+    } else {
+        ""
+    }
 }
 
 #[derive(Default, Clone)]
@@ -140,11 +168,13 @@ fn run_entry(r: &Report, e: &Entry) -> Tally {
                     Kind::Err => t.err += 1,
                     Kind::Panic(p) => {
                         t.panic += 1;
-                        r.viol(&e.name, &format!("{}/{}", e.name, panic_sig(&p)), (e.case)(i), p);
+                        let case = (e.case)(i);
+                        r.viol(&e.name, &format!("{}/{}{}", e.name, stable_panic_sig(&p), input_class(&case)), case, p);
                     }
                     Kind::Bad(why) => {
                         t.bad += 1;
-                        r.viol(&e.name, &format!("{}/ok-out-of-range", e.name), (e.case)(i), format!("{}: Ok({})", why, &buf[2..]));
+                        let case = (e.case)(i);
+                        r.viol(&e.name, &format!("{}/ok-out-of-range{}", e.name, input_class(&case)), case, format!("{}: Ok({})", why, &buf[2..]));
                     }
                 }
             }
@@ -256,8 +286,14 @@ fn main() {
         let mut w = std::io::BufWriter::new(out.lock());
         use std::io::Write;
         for i in 0..e.n {
-            line(e, i, &mut buf);
-            let _ = writeln!(w, "{}\t{}\t{}", i, (e.case)(i), buf);
+            let k = line(e, i, &mut buf);
+            // 4th column (not part of the digested stream): the panic message
+            let extra = match k {
+                Kind::Panic(p) => format!("\t# {}", stable_panic_sig(&p)),
+                Kind::Bad(w) => format!("\t# out of range: {}", w),
+                _ => String::new(),
+            };
+            let _ = writeln!(w, "{}\t{}\t{}{}", i, (e.case)(i), buf, extra);
         }
         return;
     }
@@ -351,7 +387,7 @@ fn main() {
             compare(&r, &cat, &digests, tier, &other);
         }
     }
-    r.sample(json!({"entry": "Date::new", "tuples": "i16 pool x i8 pool x i8 pool", "stream_line": "E | P <panic sig> | O <rendering>"}));
+    r.sample(json!({"entry": "Date::new", "tuples": "i16 pool x i8 pool x i8 pool", "stream_line": "E | P | O <rendering>"}));
     r.finish();
 }
 
@@ -395,6 +431,7 @@ fn compare(r: &Report, cat: &[Entry], mine: &BTreeMap<String, Tally>, tier: &str
                     line(e, i, &mut buf);
                     let want = format!("{}\t{}\t{}", i, (e.case)(i), buf);
                     let got = it.next().unwrap_or("<stream ended>");
+                    let got = got.split("\t# ").next().unwrap_or(got);
                     if want != got {
                         case = (e.case)(i);
                         detail = format!("first differing tuple #{}: {} -> `{}`; {} -> `{}`", i, r.flavour, buf, other_flavour, got.rsplit('\t').next().unwrap_or(got));
